@@ -40,6 +40,9 @@ ARGS = ["-1", "-2", "--k=v", "w", "p/q", "7", "-"]
 PROTECTED_ARGS = ["~", "~/x", "$HOME", "a=~/y", "$HOME/z", "x:~"]
 
 
+MAX_HANGS = 4
+
+
 class _Timeout(Exception):
     pass
 
@@ -235,6 +238,9 @@ def _observe(line, funcs):
 def check_case(case):
     """case = {'table': [[name, kind, body], ...], 'line': [...], 'perm': [indices]}.
     Returns (failure-or-None, nontrivial, labels)."""
+    if _state.get("hangs", 0) >= MAX_HANGS:
+        # this worker has already reported hangs: every further one would cost the whole bound again
+        return None, False, ["skipped-after-%d-hangs" % MAX_HANGS]
     items = [tuple(x) for x in case["table"]]
     line = list(case["line"])
     old_err = sys.stderr
@@ -251,6 +257,7 @@ def check_case(case):
                 _install([items[i] for i in perm])
                 obs2 = _observe(line, funcs)
         except _Timeout:
+            _state["hangs"] = _state.get("hangs", 0) + 1
             return Failure("hang", case, "alias resolution did not return within 10 s"), True, ["hang"]
         except RecursionError as e:
             return Failure("recursion", case, "RecursionError during resolution: %s" % e), True, ["exc"]
